@@ -132,9 +132,9 @@ Proof.
 Qed.
 
 Lemma register_ack_client o pkid o' ok : register_ack o pkid = (o', ok) -> o_client o' = o_client o.
-Proof. unfold register_ack. destruct (o_inflight o) as [| [[h ?] ?] r]; intros [= <- _]; reflexivity. Qed.
+Proof. unfold register_ack. destruct (o_inflight o) as [| [[h ?] ?] r]; [| destruct (pkid =? h)]; intros [= <- _]; reflexivity. Qed.
 Lemma register_pubcomp_client o pkid o' ok : register_pubcomp o pkid = (o', ok) -> o_client o' = o_client o.
-Proof. unfold register_pubcomp. destruct (o_pubrels o) as [| h r]; intros [= <- _]; reflexivity. Qed.
+Proof. unfold register_pubcomp. destruct (o_pubrels o) as [| h r]; [| destruct (pkid =? h)]; intros [= <- _]; reflexivity. Qed.
 
 Ltac clients :=
   repeat match goal with
